@@ -107,39 +107,66 @@ def _subst(x, ren):
 
 
 def match_modulo(got_by_case, want_by_case, roles, fixed_prefixes=("box.", "$")):
-    """find an injective renaming roles -> code symbols under which every case agrees; returns (renaming, None) or
-    (None, explanation)"""
+    """find an injective renaming roles -> code symbols under which every case agrees; roles ending in `.` stand for
+    objects (their fields follow).  Returns (renaming, None) or (None, explanation)"""
     syms = set()
     for g in got_by_case.values():
         _symbols(g, syms)
-    cands = sorted(s for s in syms if s not in FUNCS and not s.startswith(fixed_prefixes) and not re.fullmatch(r"[0-9.]+", s))
-    if len(cands) < len(roles):
-        return None, f"the code's results mention only the symbols {cands}, fewer than the {len(roles)} quantities of the reference ({roles})"
+    scalars = sorted(s for s in syms if s not in FUNCS and not s.startswith(fixed_prefixes) and not re.fullmatch(r"[0-9.]+", s))
+    prefixes = sorted({s.rsplit(".", 1)[0] + "." for s in scalars if "." in s})
+    s_roles = [r for r in roles if not r.endswith(".")]
+    o_roles = [r for r in roles if r.endswith(".")]
+    if len(scalars) < len(s_roles) or len(prefixes) < len(o_roles):
+        return None, f"the code's results mention only the symbols {scalars}, fewer than the quantities of the reference ({roles})"
     best = None
-    for perm in itertools.permutations(cands, len(roles)):
-        ren = dict(zip(roles, perm))
-        bad = []
-        for case, want in want_by_case.items():
-            w = A.ref(_subst(want, ren))
-            if not A.equal(got_by_case.get(case), w):
-                bad.append(case)
-        if not bad:
-            return ren, None
-        if best is None or len(bad) < len(best[1]):
-            best = (ren, bad)
-    ren, bad = best
-    det = "; ".join(f"{c}: code {A.canon(got_by_case.get(c))} vs reference {A.canon(A.ref(_subst(want_by_case[c], ren)))}" for c in bad[:4])
+    tried = 0
+    for operm in itertools.permutations(prefixes, len(o_roles)):
+        oren = dict(zip(o_roles, operm))
+        plain = [s for s in scalars if not s.startswith(tuple(operm))] if operm else scalars
+        for perm in itertools.permutations(plain, len(s_roles)):
+            tried += 1
+            if tried > 200000:
+                break
+            ren = dict(zip(s_roles, perm))
+            bad = []
+            for case, want in want_by_case.items():
+                w = A.ref(_subst(_subst_prefix(want, oren), ren))
+                if not A.equal(got_by_case.get(case), w):
+                    bad.append(case)
+            if not bad:
+                ren.update(oren)
+                return ren, None
+            if best is None or len(bad) < len(best[1]):
+                best = (dict(ren, **oren), bad, oren, dict(zip(s_roles, perm)))
+    if best is None:
+        return None, "no candidate renaming"
+    ren, bad, oren, sren = best
+    det = "; ".join(f"{c}: code {A.canon(got_by_case.get(c))} vs reference {A.canon(A.ref(_subst(_subst_prefix(want_by_case[c], oren), sren)))}" for c in bad[:4])
     return None, f"no consistent reading of {roles} makes all cases agree; closest ({ren}) fails for {det}"
+
+
+def _subst_prefix(x, oren):
+    if not oren:
+        return x
+    if isinstance(x, str):
+        for k, v in oren.items():
+            x = re.sub(r"(?<![A-Za-z0-9_.$])" + re.escape(k), v, x)
+        return x
+    if isinstance(x, list):
+        return [_subst_prefix(y, oren) for y in x]
+    if isinstance(x, dict):
+        return {k: _subst_prefix(v, oren) for k, v in x.items()}
+    return x
 
 
 def _case_value(prog, ent, case_name, case):
     presets = {}
     if isinstance(case, dict) and case.get("preset"):
-        presets[ent["selector_type"]] = ("obj", case["preset"])
+        presets[ent["selector_type"]] = ("variant", case["preset"])
     elif ent.get("selector_type") and not isinstance(case, dict):
-        presets[ent["selector_type"]] = ("obj", case_name)
+        presets[ent["selector_type"]] = ("variant", case_name)
     name_case = case.get("name") if isinstance(case, dict) else None
-    ev = A.Evaluator(prog, presets=presets, type_alias=ent.get("alias", {}), watch=(ent["watch"],), opaque=ent.get("opaque", ()), name_case=name_case, transparent=ent.get("transparent", ("fstr",)))
+    ev = A.Evaluator(prog, presets=presets, type_alias=ent.get("alias", {}), watch=(ent.get("watch", "-"),), opaque=ent.get("opaque", ()), name_case=name_case, transparent=ent.get("transparent", ("fstr",)), iflet=(case.get("iflet") if isinstance(case, dict) else None) or ent.get("iflet"))
     h = ev.by_path.get(ent["function"])
     argv = None
     if isinstance(case, dict) and case.get("args"):
@@ -153,13 +180,30 @@ def _case_value(prog, ent, case_name, case):
                 argv.append(("obj", v))
             else:
                 argv.append(("obj", f"${k}"))
-    ev.summary(ent["function"], args=argv)
+    summ = ev.summary(ent["function"], args=argv)
+    if "ret" in ent:
+        r = summ["ret"] if summ else None
+        if r is None or A.is_form(r) or r[0] != "tup":
+            return None
+        return ("tup", [r[1][i] if i < len(r[1]) else None for i in ent["ret"]])
     calls = [c for c in ev.calls if c["name"] == ent["watch"]]
     if ent.get("collect") == "keyed":
         out = {}
         for c in calls:
             if len(c["args"]) >= 2 and c["args"][0] is not None and not A.is_form(c["args"][0]) and c["args"][0][0] == "str":
                 out[c["args"][0][1]] = c["args"][1]
+        return ("struct", out)
+    if ent.get("collect") == "pairs":
+        # one call whose argument `args[0]` is a list of (key, value) pairs
+        out = {}
+        for c in calls:
+            i = ent["args"][0]
+            lst = c["args"][i] if i < len(c["args"]) else None
+            if lst is None or A.is_form(lst) or lst[0] != "tup":
+                continue
+            for pr in lst[1]:
+                if pr is not None and not A.is_form(pr) and pr[0] == "tup" and len(pr[1]) == 2 and pr[1][0] is not None and not A.is_form(pr[1][0]) and pr[1][0][0] == "str":
+                    out[pr[1][0][1]] = pr[1][1]
         return ("struct", out)
     if len(calls) != ent.get("calls", 1):
         return None
@@ -190,7 +234,7 @@ def check_sites(prog, chk, pid):
         short = path.replace("svgdx::", "")
         if ren is not None:
             for cname in ent["cases"]:
-                chk.ok("A17.site-algebra", f"{name}:{cname}", b.where(), f"{short} [{cname}]: {ent['watch']} <- {A.canon(got[cname])} equals the reference" + (f" with {ren}" if ren else ""))
+                chk.ok("A17.site-algebra", f"{name}:{cname}", b.where(), f"{short} [{cname}]: {ent.get('watch', 'result')} <- {A.canon(got[cname])} equals the reference" + (f" with {ren}" if ren else ""))
         else:
-            chk.bad("A17.site-algebra", f"{name}", b.where(), f"{short}: the values passed to {ent['watch']}() disagree with the reference algebra ({ent.get('why', '')}): {why}")
+            chk.bad("A17.site-algebra", f"{name}", b.where(), f"{short}: the values {'passed to ' + ent['watch'] + '()' if ent.get('watch') else 'returned'} disagree with the reference algebra ({ent.get('why', '')}): {why}")
     return n
